@@ -61,6 +61,7 @@ const (
 	siteKnock     = 13 // panic in the knock detector goroutine
 	siteICMP      = 14 // panic in icmp.Parse
 	siteUDP       = 15 // panic in udp.Unmarshal
+	siteTCPOptWalk = 16 // panic in tcp.Unmarshal past the fixed header: option walk / option store
 	siteUnknown   = 90
 )
 
@@ -81,12 +82,26 @@ func classify(stack string, rec string) int {
 		return siteIPTotLen
 	case has("tcp.(*Header).Unmarshal"):
 		// data[1] in the option loop is the only index expression with index 1; the
-		// fixed header fails on data[12] / data[13] or on a slice expression
+		// fixed header fails on data[12] / data[13] or on a slice expression whose operand
+		// has fewer than 20 bytes; everything else happens past the fixed header: in the walk
+		// over the option area or in the store that receives its entries
 		if strings.Contains(rec, "index out of range [1]") {
 			return siteTCPOpt
 		}
-		if strings.Contains(rec, "index out of range") && !strings.Contains(rec, "index out of range [12]") && !strings.Contains(rec, "index out of range [13]") {
-			return siteUnknown // some other index expression of the parser
+		if strings.Contains(rec, "index out of range") {
+			if strings.Contains(rec, "index out of range [12]") || strings.Contains(rec, "index out of range [13]") {
+				return siteTCPShort
+			}
+			return siteTCPOptWalk
+		}
+		if m := reSliceOperand.FindStringSubmatch(rec); m != nil {
+			if n, err := strconv.Atoi(m[2]); err == nil && m[1] == "capacity" && n < 20 {
+				return siteTCPShort
+			}
+			return siteTCPOptWalk
+		}
+		if strings.Contains(rec, "slice bounds out of range") {
+			return siteTCPOptWalk // [a:b] with a > b: no fixed-header expression has that form
 		}
 		return siteTCPShort
 	case has("icmp.Parse"):
@@ -100,6 +115,9 @@ func classify(stack string, rec string) int {
 	}
 	return siteUnknown
 }
+
+// "slice bounds out of range [:21] with length 20": kind and size of the sliced operand
+var reSliceOperand = regexp.MustCompile(`slice bounds out of range \[[0-9]*:[0-9]*:?[0-9]*\] with (capacity|length) ([0-9]+)`)
 
 func exact(b []byte) []byte { // cap == len, as in the receive loop's copy
 	c := make([]byte, len(b))
@@ -175,12 +193,15 @@ func runParse(in ParseIn) (ob ParseObs) {
 		// the handler's entry point: same parse plus the checksum verdict
 		_, cerr := tcp.UnmarshalWithChecksum(exact(in.Data), csumDst, csumSrc)
 		ob := ParseObs{}
-		nopts := int64(len(h.Options))
 		if err != nil {
 			ob.Class = 1
-			nopts = 0
 		}
-		ob.Proj = []int64{int64(h.Source), int64(h.Destination), int64(h.Ctrl), int64(h.DataOffset), nopts, int64(len(h.Payload)), b2i(cerr == tcp.ErrInvalidChecksum)}
+		// Options as the parser left them (also after an error: the entry of the failing
+		// iteration is there): count, then kind and length of every entry
+		ob.Proj = []int64{int64(h.Source), int64(h.Destination), int64(h.Ctrl), int64(h.DataOffset), int64(len(h.Options)), int64(len(h.Payload)), b2i(cerr == tcp.ErrInvalidChecksum)}
+		for _, o := range h.Options {
+			ob.Proj = append(ob.Proj, int64(o.OptionType), int64(o.OptionLength))
+		}
 		return ob
 	case pUDP:
 		h, err := udp.Unmarshal(data)
@@ -467,6 +488,11 @@ func genParse(r *hx.Rand, tier string) []ParseIn {
 			n := r.PickInt([]int{14, 20, 28, 40, 60, 100, 1600})
 			opt(p, r.Bytes(n), "random")
 		}
+	}
+
+	// tcp: option areas that parse into MANY options (every count 0..40), all tiers
+	for _, oc := range optionFamily(r, tier) {
+		add(pTCP, oc.segment(r, [4]byte{10, 1, 2, 3}, ipMe), "tcp-options-many:"+oc.note)
 	}
 
 	if tier == "quick" {
@@ -1385,6 +1411,7 @@ func main() {
 		hins = append(hins, udpDecoderHists(r, o.Tier, batch)...)
 		hins = append(hins, tcpDecoderHists(r, o.Tier)...)
 		hins = append(hins, sweepHists(r, o.Tier)...)
+		hins = append(hins, optionHists(r, o.Tier)...)
 		sizes := []int{1, 1023, 1024, 1025, 5000}
 		hins = append(hins, scanHist("tcp", sizes, 1), scanHist("udp", sizes, 2))
 		if o.Tier == "thorough" {
@@ -1421,6 +1448,12 @@ func main() {
 		pdist[fmt.Sprintf("class:%s:%d", parserNames[in.Parser], ob.Class)]++
 		if in.Note != "" {
 			pdist["gen:"+strings.SplitN(in.Note, ":", 2)[0]]++
+			if strings.HasPrefix(in.Note, "tcp-options-many:") {
+				pdist["family:"+in.Note[len("tcp-options-many:"):]]++
+			}
+		}
+		if in.Parser == pTCP && len(ob.Proj) > 4 {
+			pdist[fmt.Sprintf("tcp-option-entries:%02d", ob.Proj[4])]++
 		}
 		pcases = append(pcases, hx.Case{ID: i, Kind: "parse-" + parserNames[in.Parser],
 			Input: replayIn{Part: "parse", Parse: &pins[i]}, Obs: ob, Coq: coqParse(i, in, ob)})
